@@ -15,7 +15,7 @@ meta = {
     "needs_to_manifest": needs,
     "what_was_run": "in the scratch worktree: demo.py exits 0 on the unchanged tree and non-zero with patch.diff applied; the pinned suite "
                     "(tools/baseline.py <worktree>) still passes all 36 stable tests with the patch; then `git -C /repo apply patch.diff`, the listed "
-                    "checks, `git -C /repo checkout -- .`",
+                    "checks, `git -C /repo checkout -- .` (waves 1-3) or a scratch copy of /repo HEAD imported through NRMC_REPO (tools/seed_eval_copy.sh, later waves)",
     "detected_by": detected,
     "applies_to_repo_head": r.returncode == 0,
     "repo_head_when_kept": subprocess.run(["git", "-C", "/repo", "rev-parse", "--short", "HEAD"], capture_output=True, text=True).stdout.strip(),
